@@ -377,12 +377,18 @@ func handlerGoroutines() []string {
 func TestC13(t *testing.T) {
 	r := rt.Start(t, "C13")
 	leakIsViolation = "C13"
+	r.DeadlockIsViolation = true
 	nTerm := len(termCases())
 	nDial := 3
 	nShut := 3
 	reps := r.N(1, 4)
-	total := nTerm*reps + nDial + nShut
+	nFault := len(faultCases())
+	total := nTerm*reps + nDial + nShut + nFault
 	r.Each(t, total, 0, func(i int) string {
+		if i >= nTerm*reps+nDial+nShut {
+			fc := faultCases()[i-nTerm*reps-nDial-nShut]
+			return fmt.Sprintf("%s/send-fault@%d/all=%v/%s", baseHistories()[fc.h].name, fc.cut, fc.all, fc.cause)
+		}
 		if i >= nTerm*reps+nDial {
 			return fmt.Sprintf("real-socket gateway shutdown#%d", i-nTerm*reps-nDial)
 		}
@@ -392,6 +398,38 @@ func TestC13(t *testing.T) {
 		tc := termCases()[i%nTerm]
 		return fmt.Sprintf("%s/cut=%d/%s rep %d", baseHistories()[tc.h].name, tc.cut, tc.cause, i/nTerm)
 	}, func(t *testing.T, c *rt.Case) {
+		if c.I >= nTerm*reps+nDial+nShut {
+			g := wlSendFault.Run(t, c, c.I-nTerm*reps-nDial-nShut, c.Rand())
+			vs, checked := judgeC13(g)
+			// whatever ended the session (the failed send itself, or the cause): once the handler has
+			// returned the broker connection must be closed; a session that never returns is a violation
+			end, ended := monitors.EndTime(g.Items)
+			closed, sendErrs := false, 0
+			for _, it := range g.Items {
+				if it.Kind == world.CloseMG && (!ended || it.T <= end) {
+					closed = true
+				}
+				if it.Fault == "senderr" {
+					sendErrs++
+				}
+			}
+			if checked == 0 {
+				checked = 1
+				if !ended {
+					vs = append(vs, monitors.V{Prop: "C13", Sig: "session-does-not-end|after-send-error", What: "a gateway->client write failed; the session was still running 130 s (virtual) after the following " + fmt.Sprint(g.Extra["cause"])})
+				} else if !closed {
+					vs = append(vs, monitors.V{Prop: "C13", Sig: "broker-connection-left-open|after-send-error", What: "handler returned after a failed gateway->client write without closing the broker connection"})
+				}
+			}
+			r.Count("antecedents_checked", checked)
+			r.Count("failed_sends_observed", sendErrs)
+			for _, v := range monitors.Dedup(vs) {
+				c.Violation("send-fault|"+v.Sig, v.What, map[string]interface{}{"witness": g.witness(100)})
+			}
+			r.Observe("send-fault-outcome", fmt.Sprintf("failed=%v ended-before-cause=%v", sendErrs > 0, checked == 1 && ended))
+			c.Key("%s|%d", g.Desc, sendErrs)
+			return
+		}
 		if c.I >= nTerm*reps+nDial {
 			runShutdownSockets(c, c.I-nTerm*reps-nDial)
 			return
@@ -413,7 +451,7 @@ func TestC13(t *testing.T) {
 			r.Sample(map[string]interface{}{"case": g.Desc, "script": g.Script, "trace_tail": world.Strings(g.Evs[max0(len(g.Evs)-12):], 0)})
 		}
 	})
-	r.Finish(fmt.Sprintf("%d cases = 7 base histories (connect+traffic; will+auth; broker publishes QoS 0/1/2 in flight incl. pending registration with a client that does not acknowledge; client publish/subscribe unacknowledged by the broker; asleep with sleep pinger; asleep-short then awake then reconnected; half-open connect) x every step index x 8 termination causes (gateway shutdown, client plain DISCONNECT, broker closes, broker sends reserved-type garbage, broker sends a SUBSCRIBE, undecodable datagram, truncated datagram, unhandled packet type), each followed by 130 virtual seconds; + 3 real-socket cases of the dial-failure path (closed loopback port) + 3 real-socket cases of whole-gateway shutdown (ListenAndServe on loopback UDP with 2/4/6 peers, every second one asleep; context cancelled: active peers get DISCONNECT, sleeping ones nothing, ListenAndServe returns, no session goroutine is left). Oracle: handler returns within one 100 ms poll interval of the cause; broker link closed by then; DISCONNECT to the client exactly when the wire-derived client state is active/awake and the client did not disconnect itself (the phase after a wake-up's PINGRESP is don't-care); at quiescence after teardown no goroutine of the bubble (resp. of the process, for the dial cases) is inside bisquitt code. exhaustive for the stated case list.", nTerm), nil)
+	r.Finish(fmt.Sprintf("%d cases = 7 base histories (connect+traffic; will+auth; broker publishes QoS 0/1/2 in flight incl. pending registration with a client that does not acknowledge; client publish/subscribe unacknowledged by the broker; asleep with sleep pinger; asleep-short then awake then reconnected; half-open connect) x every step index x 8 termination causes (gateway shutdown, client plain DISCONNECT, broker closes, broker sends reserved-type garbage, broker sends a SUBSCRIBE, undecodable datagram, truncated datagram, unhandled packet type), each followed by 130 virtual seconds; + 3 real-socket cases of the dial-failure path (closed loopback port) + 3 real-socket cases of whole-gateway shutdown (ListenAndServe on loopback UDP with 2/4/6 peers, every second one asleep; context cancelled: active peers get DISCONNECT, sleeping ones nothing, ListenAndServe returns, no session goroutine is left) + send-fault cases: every base history (but the stalled one) with the next / every later gateway->client datagram write failing from every step index on, then 2 s, then {shutdown, broker close, client DISCONNECT}: the session must still end (by the failed send or by the cause) with the broker connection closed and nothing left behind. Oracle: handler returns within one 100 ms poll interval of the cause; broker link closed by then; DISCONNECT to the client exactly when the wire-derived client state is active/awake and the client did not disconnect itself (the phase after a wake-up's PINGRESP is don't-care); at quiescence after teardown no goroutine of the bubble (resp. of the process, for the dial cases) is inside bisquitt code. exhaustive for the stated case list.", nTerm), nil)
 }
 
 func max0(a int) int {
